@@ -2168,7 +2168,8 @@ class tensor:
                     raise ValueError(
                         f"Entries for setitem must be numeric but received, {element}"
                     )
-                sliceCheck.append(max(element))
+                # An empty index list addresses nothing (and never grows the tensor)
+                sliceCheck.append(max(element) if len(element) > 0 else -1)
             else:
                 sliceCheck.append(element)
         bsiz = np.array(sliceCheck)
@@ -2199,6 +2200,9 @@ class tensor:
 
         # Will the size change? If so we first need to resize x
         n = self.ndims
+        if subs.shape[0] == 0:
+            # No subscripts: nothing is assigned
+            return
         bsiz = np.array(np.max(subs, axis=0))
         if n == 0:
             newsiz = (bsiz[n:] + 1).astype(int)
